@@ -107,7 +107,7 @@ theorem elab_func_item {st : St} {D : List Module} {mn : Str} {items : List Item
       AtItem st' D mn (items ++ [.func (normFunc f)]) tab' (lastInsnOf f.body li) ∧
       LabInv st'.labels k0 k' (defs ++ f.body.flatMap fitemDefs) ∧ st'.nlab = k' ∧ k0 ≤ k' := by
   simp only [funcOK, Bool.and_eq_true, Bool.not_eq_true', List.all_eq_true] at hok
-  obtain ⟨⟨⟨⟨⟨⟨⟨⟨⟨⟨⟨_, hres⟩, _⟩, hva⟩, _⟩, _⟩, hnres⟩, hdist⟩, hhard⟩, hbody⟩, hfin⟩, htrail⟩ := hok
+  obtain ⟨⟨⟨⟨⟨⟨⟨⟨⟨⟨_, hres⟩, _⟩, hva⟩, _⟩, _⟩, hnres⟩, hdist⟩, hhard⟩, hbody⟩, hfin⟩ := hok
   obtain ⟨b, hadd⟩ := declare_func hdecl
   -- header
   let f0 : Func := ⟨f.name, f.res, f.args.map normVar, f.vararg, [], [], []⟩
@@ -161,15 +161,13 @@ theorem elab_func_item {st : St} {D : List Module} {mn : Str} {items : List Item
   have hf2 : f2 = ⟨f.name, f.res, f.args.map normVar, f.vararg, f.locals, f.globals, []⟩ := by
     simp [f2, f1, f0]
   have hregs2 : f2.regNames = f.regNames := by rw [hf2]; exact regNames_norm f []
-  -- body
+  -- body and endfunc
   have hin3 : InFunc st3 st3 f2 := ⟨rfl, rfl, rfl, rfl⟩
   have hcur3 : st3.cur = some ⟨mn, items⟩ := hat.cur
-  obtain ⟨st4, hb4, hin4, hli4, hinv4, hn4, hk4⟩ := elab_body (m := ⟨mn, items⟩) f.body st3 st3 f2 [] k0 k k' defs hin3 hcur3
-    hk0 hinv hn
-    (by rw [hregs2]; simpa [List.all_eq_true, st3, st2, st1] using hbody)
-    (by simpa using okTail_of_noTrailing f.body htrail)
-    (by simpa using hcan) (by simpa using hnd)
-  -- endfunc
+  obtain ⟨st4, hb4, hd4, ht4, hf4, hc4, hli4, hinv4, hn4, hk4⟩ :=
+    elab_body (m := ⟨mn, items⟩) f.body st3 st3 f2 [] k0 k k' defs hin3 hcur3 hk0 hinv hn
+      (by rw [hregs2]; simpa [List.all_eq_true, st3, st2, st1] using hbody)
+      (by simpa using hcan) (by simpa using hnd)
   let ffin : Func := { f2 with body := f2.body ++ ([] : List Nat).map FItem.label ++ f.body.map normFItem }
   have hffin : ffin = normFunc f := by
     simp [ffin, hf2, normFunc]
@@ -181,28 +179,21 @@ theorem elab_func_item {st : St} {D : List Module} {mn : Str} {items : List Item
       rw [any_isRetLike_norm, lastIsJmp_norm]
       exact hfin
     simp [this]
-  have hend : elabStmt st4 ⟨[], .endfunc, [], false⟩
-      = .ok { st4 with func := none, cur := some ⟨mn, items ++ [.func ffin]⟩ } := by
-    have hc4 : st4.cur = some ⟨mn, items⟩ := hin4.cur.trans hcur3
-    have hff : ({ f2 with body := f2.body ++ f.body.map normFItem } : Func) = ffin := by simp [ffin]
-    simp only [elabStmt, elabOps, hin4.func, hc4]
-    simp only [List.map_nil, List.append_nil] at hff ⊢
-    rw [hff, hfinish]
-    simp
-  refine ⟨{ st4 with func := none, cur := some ⟨mn, items ++ [.func ffin]⟩ }, ?_, ?_, ?_, hn4, hk4⟩
-  · have hb4' : elabStmts st3 (stmtsOfBody f.body []) = .ok st4 := by simpa using hb4
+  refine ⟨st4, ?_, ⟨hd4.trans hat.done, ?_, ht4, hf4, ?_⟩, by simpa using hinv4, hn4, hk4⟩
+  · have hb4' : elabStmts st3 (stmtsOfBody f.body [] ++ [⟨bodyPending f.body [], .endfunc, [], false⟩]) = .ok st4 := by
+      simpa using hb4
     have hloc' : elabStmts st1 ((chunk8 f.locals.length f.locals).map
         fun line => ⟨[], .local, line.map (fun v => ROp.var v.1 v.2 none), false⟩) = .ok st2 := hloc
     have hglob' : elabStmts st2 ((chunk8 f.globals.length f.globals).map
         fun line => ⟨[], .global, line.map (fun v => ROp.var v.1 v.2.1 (some v.2.2)), false⟩) = .ok st3 := hglob
-    simp only [stmtsOfFunc, elabStmts_append, elabStmts_cons, elabStmts_nil, hhdr, hloc', hglob', hb4', hend]
-  · refine ⟨?_, ?_, ?_, rfl, ?_⟩
-    · exact hin4.done.trans hat.done
-    · simp [hffin]
-    · exact hin4.tab
-    · simpa [st3, st2, st1, hat.li] using hli4
-  · simpa using hinv4
-
+    simp only [stmtsOfFunc, List.append_assoc, elabStmts_append, elabStmts_cons, elabStmts_nil, hhdr, hloc', hglob']
+    simpa [elabStmts_append, elabStmts_cons, elabStmts_nil] using hb4'
+  · rw [hc4]
+    have hff : ({ f2 with body := f2.body ++ f.body.map normFItem } : Func) = ffin := by simp [ffin]
+    have : finishFunc ffin = normFunc f := by rw [hfinish, hffin]
+    simp only [List.map_nil, List.append_nil]
+    rw [hff, this]
+  · simpa [st3, st2, st1, hat.li] using hli4
 
 /-! ## single-line items -/
 
@@ -266,13 +257,13 @@ theorem elabOps_data (st : St) (ty : Ty) (els : List Nat) (acc : List Op) :
       cases ty <;> simp [dataRop, dataOp, elabOps]
     simp only [List.map_cons, this, ih, List.append_assoc, List.singleton_append]
 
-theorem dataEls_ok {ty : Ty} (hb : ty.isBlk = false) (hp : ty ≠ .p) (els : List Nat) :
+theorem dataEls_ok {ty : Ty} (hb : ty.isBlk = false) (els : List Nat) :
     dataEls ty (els.map (dataOp ty)) = .ok (els.map (· % 2 ^ ty.bits)) := by
   induction els with
   | nil => rfl
   | cons v vs ih =>
     have h1 : dataEl ty (dataOp ty v) = .ok (v % 2 ^ ty.bits) := by
-      cases ty <;> simp [Ty.isBlk] at hb <;> simp at hp <;>
+      cases ty <;> simp [Ty.isBlk] at hb <;>
         simp [dataOp, dataRop, dataEl, Ty.bits, sextBits8, sextBits16, sextBits32, sextBits64, BitVec.toNat_ofNat]
     simp only [List.map_cons, dataEls, h1, ih, Except.map]
 
@@ -367,32 +358,29 @@ theorem elab_item {st : St} {D : List Module} {mn : Str} {prev : List Item} {tab
     simp [hlen, hname, h1, normItem]
   | data name ty els =>
     obtain ⟨h1, h2, h3, h4, h5⟩ := fin st hat rfl rfl rfl rfl (by simp [stepW])
-    simp only [dataOK, Bool.and_eq_true, Bool.not_eq_true', Bool.or_eq_true, decide_eq_true_eq] at hok
-    obtain ⟨⟨hb, hp⟩, _⟩ := hok
+    simp only [dataOK, Bool.and_eq_true, Bool.not_eq_true'] at hok
+    obtain ⟨hb, _⟩ := hok
     refine ⟨_, ?_, h2, h3, h4, h5⟩
     simp only [stmtsOfItem, elabStmts_cons, elabStmts_nil, elabStmt, elabOps_data, List.nil_append]
     simp only [normItem, itemName, itemKind] at h1
     have hname : optLabel (optL name) = name := by cases name <;> rfl
-    rcases hp with hp | hp
-    · have hde := dataEls_ok hb (by simpa using hp) els
-      simp [hde, hb, hname, h1, normItem]
-    · have he : els = [] := by simpa [List.isEmpty_iff] using hp
-      subst he
-      simp only [List.map_nil] at h1
-      simp [dataEls, hb, hname, h1, normItem]
+    have hde := dataEls_ok hb els
+    simp [hde, hb, hname, h1, normItem]
   | ref name item disp =>
     obtain ⟨h1, h2, h3, h4, h5⟩ := fin st hat rfl rfl rfl rfl (by simp [stepW])
-    simp only [Bool.and_eq_true, notStaleLabel, Bool.not_eq_true'] at hok
-    obtain ⟨⟨_, htf⟩, hstale⟩ := hok
+    simp only [Bool.and_eq_true] at hok
+    obtain ⟨_, htf⟩ := hok
+    have hstale : labelPos (headCode .ref) 0 = false := by decide +kernel
     refine ⟨_, ?_, h2, h3, h4, h5⟩
     simp only [normItem, itemName, itemKind] at h1
     have hname : optLabel (optL name) = name := by cases name <;> rfl
-    simp only [stmtsOfItem, elabStmts_cons, elabStmts_nil, elabStmt, elabOps, elabName, List.length_nil, hat.li, hstale]
-    simp [hat.cur, hat.tab, htf, hname, h1, normItem, hat.li]
+    simp only [stmtsOfItem, elabStmts_cons, elabStmts_nil, elabStmt, elabOps, elabName, List.length_nil, hstale]
+    simp [hat.cur, hat.tab, htf, hname, h1, normItem]
   | expr name fn =>
     obtain ⟨h1, h2, h3, h4, h5⟩ := fin st hat rfl rfl rfl rfl (by simp [stepW])
-    simp only [Bool.and_eq_true, notStaleLabel, Bool.not_eq_true'] at hok
-    obtain ⟨⟨⟨_, hstale⟩, htab⟩, hfun⟩ := hok
+    simp only [Bool.and_eq_true] at hok
+    obtain ⟨⟨_, htab⟩, hfun⟩ := hok
+    have hstale : labelPos (headCode .expr) 0 = false := by decide +kernel
     refine ⟨_, ?_, h2, h3, h4, h5⟩
     simp only [normItem, itemName, itemKind] at h1
     have hname : optLabel (optL name) = name := by cases name <;> rfl
@@ -407,8 +395,8 @@ theorem elab_item {st : St} {D : List Module} {mn : Str} {prev : List Item} {tab
         obtain ⟨⟨hva, hae⟩, hrl⟩ := hfun
         have hfn : findFunc (prev.map normItem) fn = some (normFunc f0) := by rw [findFunc_map_norm, hff]; rfl
         have hae' : f0.args = [] := by simpa [List.isEmpty_iff] using hae
-        simp only [stmtsOfItem, elabStmts_cons, elabStmts_nil, elabStmt, elabOps, elabName, List.length_nil, hat.li, hstale]
-        simp [hat.cur, hat.tab, hte, hek, hfn, hname, h1, normItem, normFunc, hva, hrl, hae', hat.li]
+        simp only [stmtsOfItem, elabStmts_cons, elabStmts_nil, elabStmt, elabOps, elabName, List.length_nil, hstale]
+        simp [hat.cur, hat.tab, hte, hek, hfn, hname, h1, normItem, normFunc, hva, hrl, hae']
   | proto name res args va =>
     obtain ⟨h1, h2, h3, h4, h5⟩ := fin st hat rfl rfl rfl rfl (by simp [stepW])
     simp only [Bool.and_eq_true, Bool.not_eq_true'] at hok
